@@ -441,7 +441,7 @@ func verifC11h() { // C11g with the decorator shapes fixed: a value decorator wi
 
 func verifC11i() { // C11a with nested parameter objects: a soft group field followed only by a nested dig.In field
 	verifRunProfile(&vProfile{name: "C11i", clauses: vC11,
-		maxScopes: 1, nRegs: 1, maxParams: 0, maxResults: 2, pForms: 3, rForms: 2, names: 1, groups: true, soft: true, softOuter: true,
+		maxScopes: 1, nRegs: 1, maxParams: 0, maxResults: 2, pForms: 3, rForms: 2, names: 1, groups: true, soft: true, softOuter: true, nestLast: true,
 		faults: 1, nInvokes: 1, invParams: 2})
 }
 
